@@ -328,6 +328,12 @@ func (v *Verifier) rangeOfComp(name string) (lo, hi string, ok bool) {
 	}
 	l, h, isInt := intRange(v.lastLeaf)
 	if !isInt {
+		switch v.lastLeaf.Underlying().(type) {
+		case *types.Pointer, *types.Map:
+			return "ref", "", true
+		case *types.Slice:
+			return "slice", "", true
+		}
 		return "", "", false
 	}
 	return BigLit(l).S, BigLit(h).S, true
